@@ -130,6 +130,8 @@ def run_job(j):
         data = vals.copy()
         if j.get("dtype"):
             data = data.astype(j["dtype"])
+        from harness.workers.layouts import apply_layout
+        data = apply_layout(data, j.get("layout"))
         dy, dx = j.get("dims", ["y", "x"])
         r = xr.DataArray(data, dims=[dy, dx], coords={dy: ys.copy(), dx: xs.copy()})
         if j.get("chunks"):
